@@ -505,7 +505,7 @@ let run_stmt_full (b : backend) (s : Sexp.t) : string =
   with Exit -> "PANIC"
 
 (* the decidable separability premise of the text-level theorems (Spec/EngScript.v), evaluated on the script the
-   model renders for this program: P = params_sep, I = inline_sep *)
+   model renders for this program: P = params_sep, I = inline_sep (engine lexer), C = crate_sep (the crate's tokenizer) *)
 let run_sep (b : backend) (s : Sexp.t) : string =
   try
     let q = (match head s with
@@ -515,7 +515,8 @@ let run_sep (b : backend) (s : Sexp.t) : string =
     let sc = rquery is_alpha_rust b (tables_of !more_parens b) fuel q in
     (match emit_params ftext b sc with
      | Panic -> "PANIC"
-     | Ok _ -> Printf.sprintf "P%d I%d" (if params_sep ftext b sc then 1 else 0) (if inline_sep ftext b sc then 1 else 0))
+     | Ok _ -> Printf.sprintf "P%d I%d C%d" (if params_sep ftext b sc then 1 else 0) (if inline_sep ftext b sc then 1 else 0)
+                 (if crate_sep is_alpha_rust ftext b sc then 1 else 0))
   with Exit -> "PANIC"
 
 (* diagnostic: the first piece (from the end) whose text does not lex alone or whose seam is unsafe *)
@@ -538,7 +539,18 @@ let run_sepdbg (b : backend) (s : Sexp.t) : string =
                 | h :: t -> Printf.sprintf "piece=%s next=%s" (hex_of_str h) (hex_of_str (List.concat t))
                 | [] -> "?")) in
       find sufs in
-    Printf.sprintf "P[%s] I[%s]" (diag (texts_params b ps)) (diag (texts_inline ftext b (vals_of sc) ps))
+    let cdiag texts =
+      let rec suffixes l = match l with [] -> [[]] | _ :: t -> l :: suffixes t in
+      let sufs = List.rev (suffixes texts) in
+      let rec find = function
+        | [] -> "ok"
+        | l :: rest -> (match clex_texts is_alpha_rust l with
+            | Some _ -> find rest
+            | None -> (match l with
+                | h :: t -> Printf.sprintf "piece=%s next=%s" (hex_of_str h) (hex_of_str (List.concat t))
+                | [] -> "?")) in
+      find sufs in
+    Printf.sprintf "P[%s] I[%s] C[%s]" (diag (texts_params b ps)) (diag (texts_inline ftext b (vals_of sc) ps)) (cdiag (texts_params b ps))
   with Exit -> "PANIC"
 
 let run_entry (b : backend) (s : Sexp.t) : string =
